@@ -228,6 +228,10 @@ def c06_e(ctx: Ctx):
             continue
         rk = [x for x in ast.walk(a) if isinstance(x, ast.Call) and "signac.filterparse:_root_keys" in common.targets_of(ctx, f, x)]
         if not rk:
+            # hoisted: root_keys = set(_root_keys(filter)); ... "doc" in root_keys  -> inline one level (single-assignment locals only)
+            a = inline(a, ctx.env(f), depth=2)
+            rk = [x for x in ast.walk(a) if isinstance(x, ast.Call) and "signac.filterparse:_root_keys" in common.targets_of(ctx, f, x)]
+        if not rk:
             out.append(ctx.inc(R, f, c, f"include_job_document={canon(a)} does not use _root_keys"))
             continue
         arg = rk[0].args[0] if rk[0].args else None
